@@ -6,7 +6,10 @@ package main
 // MapUseThreshold), deep nesting, and non-object roots.
 
 import (
+	"encoding/json"
 	"strings"
+
+	insaneJSON "github.com/ozontech/insane-json"
 
 	"verif/harness/hx"
 )
@@ -154,7 +157,7 @@ func (g evGen) str() string {
 		n := r.Intn(12)
 		b := make([]byte, n)
 		for i := range b {
-			b[i] = "ab\\\"{}[]()'`,: \n\xff\xc3x19u"[r.Intn(23)]
+			b[i] = "ab\\\"{}[]()'`,: \n\xff\xc3x19u"[r.Intn(22)]
 		}
 		return string(b)
 	default: // a valid embedded document built by the generator itself
@@ -263,6 +266,65 @@ func (g evGen) event() string {
 			add("w"+string(rune('a'+i)), hx.Pick(r, rawScalars))
 		}
 	}
-	r.Shuffle(parts)
+	shuffle(r, parts)
 	return "{" + strings.Join(parts, ",") + "}"
+}
+
+// lenientJSON: some string inside the event (at any embedding depth <= 3) is a document that
+// insane-json accepts although it is not JSON (bad escapes such as \x or \u12, numbers such as .5):
+// a decoding action then splices it into the event verbatim. Recorded finding (third-party parser);
+// such events run in their own stream so the finding masks nothing else.
+func lenientJSON(text []byte) bool {
+	root := insaneJSON.Spawn()
+	defer insaneJSON.Release(root)
+	if err := root.DecodeBytes(text); err != nil {
+		return false
+	}
+	return lenientNode(root.Node, 3)
+}
+
+func lenientText(s string, depth int) bool {
+	root := insaneJSON.Spawn()
+	defer insaneJSON.Release(root)
+	if err := root.DecodeString(s); err != nil {
+		return false
+	}
+	if !json.Valid([]byte(s)) {
+		return true
+	}
+	if depth == 0 {
+		return false
+	}
+	return lenientNode(root.Node, depth-1)
+}
+
+func lenientNode(n *insaneJSON.Node, depth int) bool {
+	switch {
+	case n.IsString():
+		return lenientText(n.AsString(), depth)
+	case n.IsArray():
+		for _, x := range n.AsArray() {
+			if lenientNode(x, depth) {
+				return true
+			}
+		}
+	case n.IsObject():
+		for _, f := range n.AsFields() {
+			if lenientNode(f.AsFieldValue(), depth) {
+				return true
+			}
+		}
+	}
+	return false
+}
+
+// k8sBad: an event the k8s multiline action answers with Fatal (no meta fields because the root
+// is not an object; `log` missing or not a string) or with a slice panic (one-character literal).
+func k8sBad(text []byte) bool {
+	root := insaneJSON.Spawn()
+	defer insaneJSON.Release(root)
+	if err := root.DecodeBytes(text); err != nil {
+		return false
+	}
+	return !root.IsObject() || !root.Dig("log").IsString()
 }
